@@ -196,11 +196,11 @@ class Adt:
 class Ref:
     """pointer to a place: (object id, field path)"""
 
-    def __init__(self, obj, path=()):
-        self.obj, self.path = obj, tuple(path)
+    def __init__(self, obj, path=(), mutable=True):
+        self.obj, self.path, self.mutable = obj, tuple(path), mutable
 
     def __repr__(self):
-        return f"&obj{self.obj}{list(self.path)}"
+        return f"&{'mut ' if self.mutable else ''}obj{self.obj}{list(self.path)}"
 
 
 class Opaque:
@@ -608,23 +608,25 @@ class Explorer:
         if re.fullmatch(r"[A-Za-z_][\w:<>, &']*::(None|Some|Ok|Err)", t) and t.endswith("None"):
             return Adt(t, [])
         # references
-        m = re.fullmatch(r"&(?:mut |raw const |raw mut )?(.*)", t)
+        m = re.fullmatch(r"&(mut |raw const |raw mut )?(.*)", t)
         if m:
+            shared = m.group(1) is None   # a shared borrow: an unknown callee cannot write through it
+            m = re.fullmatch(r"&(?:mut |raw const |raw mut )?(.*)", t)
             root, steps = self.parse_place(m.group(1))
             base = frame.locals.get(root)
             if steps and steps[0][0] == "deref" and isinstance(base, Ref):
                 path = base.path + tuple(s[1] for s in steps[1:] if s[0] == "field")
-                return Ref(base.obj, path)
+                return Ref(base.obj, path, mutable=(not shared) and base.mutable)
             if steps and steps[0][0] == "deref" and isinstance(base, _ObjView):
                 path = base.path + tuple(s[1] for s in steps[1:] if s[0] == "field")
-                return Ref(base.obj, path)
+                return Ref(base.obj, path, mutable=not shared)
             if not steps:
                 # reference to a local: box the local in an object
                 oid = ("local", id(frame), root)
                 st.objs.setdefault(oid, {})
-                if root in frame.locals and not isinstance(frame.locals[root], Opaque):
+                if root in frame.locals:
                     st.objs[oid][()] = frame.locals[root]
-                return Ref(oid, ())
+                return Ref(oid, (), mutable=not shared)
             return Opaque("ref " + t[:40])
         m = re.fullmatch(r"no_retag (copy|move) (.*)", t)
         if m:
@@ -865,7 +867,9 @@ class Explorer:
                     callee_f = self.resolve(cname)
                     for i, a in enumerate(args):
                         if isinstance(a, Ref):
-                            mut = True
+                            mut = a.mutable
+                            if not mut:
+                                continue
                             if callee_f is not None and i < len(callee_f.args):
                                 mut = callee_f.args[i][1].startswith("&mut")
                             elif i < len(args):
